@@ -34,6 +34,16 @@ CLAIMS = {
                 'preceded by a synchronise and followed by the recalculation flags.',
         not_decided='rounding-level equality of merged and split drifts; the EOS truncation claim; corrector2 is trusted to be inverted by inv=-1; WHFast512',
         design_ref='3/C09'),
+    'C10': dict(
+        module='c10', level='other',
+        technique='operator-sequence extraction by constant propagation (palindrome and typestate checks) + syntactic form check of the JANUS integer update statements',
+        decided='every JANUS scheme table is read palindromically by gg() and its stage coefficients sum to 1; for each order the drift/kick sequence '
+                'of a step is a palindrome, every force evaluation is preceded by to_double after the last drift, and all call sites of drift/kick/to_double pass '
+                'the same scale arguments; the drift and kick updates are additive integer shears (q += (INT)(dt*...), dt exactly once, no self reference, '
+                'drift reads only integer velocities, components match) and to_int runs only under the recalculation flag; one step of LEAPFROG, '
+                'WHFast (default kernel, no correctors), every uncorrected SABA type and every unprocessed EOS splitting (both shells) is a palindromic operator word.',
+        not_decided='the bit-wise round trip itself; float->int conversion semantics of the platform; SEI',
+        design_ref='3/C10'),
     'C12': dict(
         module='c12', level='other',
         technique='sibling/slice isomorphism over the clang AST: kind projections of transformation variants, xyz component renaming, MERCURIUS/TRACE twin comparison',
